@@ -66,3 +66,7 @@ Definition irs_hold (a : Z -> bool) (l : list ir) : bool := forallb (ir_holds a)
 Definition irs_max_var (l : list ir) : Z := fold_right (fun i m => Z.max (max_var_clause (ir_lits i)) m) 0 l.
 (* certificate checker for the literal range of an instance (soundness: IRRange.irs_in_range_sound) *)
 Definition irs_in_range (n : Z) (l : list ir) : bool := irs_ok l && (irs_max_var l <=? n).
+
+(* every literal of a list of pseudo-Boolean constraints is non-zero and within 1..n *)
+Definition opb_in_range (n : Z) (F : list pbc) : bool :=
+  forallb (fun c => forallb (fun t => nonzero (snd t) && (Z.abs (snd t) <=? n)) (pb_terms c)) F.
